@@ -158,26 +158,29 @@ CHECKS.update({
 NOT_YET = {}
 
 PUMPED = {"C01", "C02", "C03", "C05", "C07", "C04", "C08", "C13", "C09", "C10", "C11", "C16", "C17", "C18"}
-PUMP = " Pumped linear families (refmodel::pump) complement the small-scope search: 13 one-parameter families (long strings of four kinds, a long key, long arrays, many distinct / duplicated keys, long integers and fractions, a nested long array) are executed for every size 0..40 and 2^k-1, 2^k, 2^k+1 up to 65 537, and two two-parameter grids (key length 17..257 x 4..57 keys, without and with duplicates)."
+PUMP = " Pumped linear families (refmodel::pump) complement the small-scope search: 13 one-parameter families (long strings of four kinds, a long key, long arrays, many distinct / duplicated keys, long integers and fractions, a nested long array) are executed for every size 0..136, every multiple of 16 +-1 up to 1 025 and 2^k-1, 2^k, 2^k+1 up to 65 537 (four more families put a control / quote / wide character after a run of every such length), and two two-parameter grids (key length 17..257 x 4..57 keys, without and with duplicates)."
 
 # families added after the seed rounds on rarely used routes and on history (DESIGN 10.6, sixth round)
 EXTRA = {
-    "C01": " History: every sequence of calls of length 2 over 65 documents x entry points and of length 3 (4 thorough) over a core alphabet is run on a fresh thread; every step must equal the same call made first on a fresh thread. The named option records (strict, default, flexible) are checked against their documentation.",
+    "C01": " Deep documents around every plausible nesting limit (1e3 .. 1e6, closed / unclosed / one closer too many). Alignment sweep (the same bytes 0, 1, 4, 7 past a 16-byte boundary). A 14th entry point: characters announced with their UTF-16 lengths. History: every sequence of calls of length 2 over 65 documents x entry points and of length 3 (4 thorough) over a core alphabet is run on a fresh thread; every step must equal the same call made first on a fresh thread. The named option records (strict, default, flexible) are checked against their documentation.",
     "C02": " All 13 entry points on every node of at most 9 (11) bytes and on every structured family; history sequences as in C01.",
-    "C03": " Every node is also fed from a source that answers an error after the node's last character (an Err must come back, nothing is pulled afterwards); history sequences as in C01.",
-    "C05": " All 13 entry points on every node of at most 9 (11) bytes and on every structured family; the seven routes to the code map's entries (iter, as_slice, Deref, AsRef, Borrow, both IntoIterator impls) must agree; history sequences as in C01.",
-    "C07": " Failing source: every node is also fed from a source that answers an error after the node's last character - an error strictly before it wins, otherwise Stream(bytes consumed) with the source's error value intact (the mechanism behind InvalidUtf8 in parse_slice); history sequences as in C01.",
-    "C11": " sub_fragments() of every fragment forwards, backwards and alternately from both ends against the children computed from the code map; map conversions on non-objects (root, nested, through Box), unparsable map keys reported at the key fragment, TryFromJsonObject.",
+    "C03": " Pump endings 7-9: the closed deep value followed by an ill-formed byte, by whitespace and a truncated sequence, by a failing character source; depths 100 003, 131 073 and 1 000 003 in the quick tier. Every node is also fed from a source that answers an error after the node's last character (an Err must come back, nothing is pulled afterwards); history sequences as in C01.",
+    "C05": " Alignment sweep of parse_slice; a 14th entry point whose characters are announced with their UTF-16 lengths (positions translated back). All 13 entry points on every node of at most 9 (11) bytes and on every structured family; the seven routes to the code map's entries (iter, as_slice, Deref, AsRef, Borrow, both IntoIterator impls) must agree; history sequences as in C01.",
+    "C07": " Deep documents; UTF-16-length entry point; alignment sweep. Failing source: every node is also fed from a source that answers an error after the node's last character - an error strictly before it wins, otherwise Stream(bytes consumed) with the source's error value intact (the mechanism behind InvalidUtf8 in parse_slice); history sequences as in C01.",
+    "C11": " The code map obtained from characters announced with their UTF-16 lengths, translated back, must equal the UTF-8 one. sub_fragments() of every fragment forwards, backwards and alternately from both ends against the children computed from the code map; map conversions on non-objects (root, nested, through Box), unparsable map keys reported at the key fragment, TryFromJsonObject.",
     "C12": " Six fixed escapes (three highs, two lows, one ordinary) followed and preceded by every one of the 65 536 escapes. History sequences as in C01 (including the lenient record); named option records.",
     "C04": " The option-less conversions (Display, to_string, String::from(value)) must round-trip as well.",
-    "C13": " Depth x indent family: nesting depths 1..40 and around 48/64/86/128 x 25 indent units, pretty and always-expanded. Other print routes: Print::fmt_with at base indentation levels 1 and 2 (the level-0 text with k more indent units after every line break), &Value, Meta<Value, M>, Stripped<Meta<...>>.",
-    "C09": " Prefixed-keys family: common prefixes of every length 0..17 and around 24/32/64 (1-, 2-, 3-, 4-byte characters) x every ordered pair of 14 deciding tails x 3 suffix patterns. Every value is canonicalized through Value::canonicalize, Value::canonicalize_with with a number buffer reused across all calls of the thread, and (objects) Object::canonicalize / canonicalize_with; the routes must agree.",
-    "C10": " Prefixed-keys family as in C09, also with equal member values. Every document is read through parse_str and parse_slice; both must canonicalize identically.",
+    "C13": " Every numeric option field through the dense size list on four base records. Display under caller format parameters. Depth x indent family: nesting depths 1..40 and around 48/64/86/128 x 25 indent units, pretty and always-expanded. Other print routes: Print::fmt_with at base indentation levels 1 and 2 (the level-0 text with k more indent units after every line break), &Value, Meta<Value, M>, Stripped<Meta<...>>.",
+    "C09": " Medium-precision spellings: every structured double rounded to 14..18 significant digits, last digit -1/0/+1, exponent and positional notation, both signs. Prefixed-keys family: common prefixes of every length 0..17 and around 24/32/64 (1-, 2-, 3-, 4-byte characters) x every ordered pair of 14 deciding tails x 3 suffix patterns. Every value is canonicalized through Value::canonicalize, Value::canonicalize_with with a number buffer reused across all calls of the thread, and (objects) Object::canonicalize / canonicalize_with; the routes must agree.",
+    "C10": " All medium-precision spellings of one double must canonicalize identically. Prefixed-keys family as in C09, also with equal member values. Every document is read through parse_str and parse_slice; both must canonicalize identically.",
     "C15": " Objects built through grow-and-drain routes (peaks through the index thresholds, four removal patterns) against fresh permutations. Pumped objects also with every value wrapped in a two-member object whose members are swapped in every other entry; Meta<Value, M> and Vec<Value> carriers.",
     "C16": " Std containers and smart pointers (Box, Cow, arrays, 1-tuples, sets, deques, nested options, NonZero, Duration, Range, Result, paths, addresses) and a collect_str type as value and key.",
     "C06": " Hash mode 3 (hook): every key index gets its own seed, as in production; action clone_from(n) into an independently built object; audits are not memoised in that mode.",
-    "C14": " Wide-object laws: for every n through the size thresholds, a base object and every combination of two out of eight edits (37 objects): == structural, cmp antisymmetric, Equal iff equal, transitive on all triples, hashes.",
+    "C14": " Construction routes with real spare capacity (fresh buffers), truncated long keys, clones. Wide-object laws: for every n through the size thresholds, a base object and every combination of two out of eight edits (37 objects): == structural, cmp antisymmetric, Equal iff equal, transitive on all triples, hashes.",
     "C19": " Boundary literals: the limits of every integer and float width (type-suffixed), one step inside each, and the decimal thresholds, in three contexts; every program is built under catch_unwind so that a panic is attributed to its program.",
+    "C18": " Objects shaped like serde_json's arbitrary-precision number encoding (7 payloads x 4 placements) from both sides.",
+    "C20": " Every rendering under eight caller format specs: the plain text, or the plain text formatted as a whole.",
+    "C08": " Display under six caller format specs (width, fill, alignment, precision, alternate, zero): the compact text, or that text formatted as a whole (defect D15, fixed).",
     "C17": " Coherence: Object's own Serialize / Deserialize impls must agree with Value's on every object, duplicates included.",
 }
 
